@@ -40,7 +40,7 @@ _ORIG_SCHED = _loop.Loop.schedule
 class Probe:
     __slots__ = ('k', 'b_step', 'b_total', 'before', 'acts', 'scheds', 'record',
                  'step_time', 'step_count', 'max_step', 'record_sched',
-                 'monotone_ok', 'last_time', 'loop', 'total', 'on_end', 'absorbed')
+                 'monotone_ok', 'last_time', 'loop', 'total', 'on_end', 'absorbed', 'merged')
 
     def __init__(self, b_step=20000, b_total=200000, before=None, record=False,
                  record_sched=False):
@@ -59,6 +59,7 @@ class Probe:
         self.last_time = None
         self.loop = None
         self.total = 0
+        self.merged = []    # with record and record_sched: ('s', due, target, signal) / ('r', signal) / ('a', time, target, signal)
         self.absorbed = False   # a positive delay vanished in the float resolution of the clock (now + delay == now)
         self.on_end = None      # called when the observed event loop stops (before usim unwinds what is left)
 
@@ -106,6 +107,8 @@ def _run_coroutine(self, target, signal=None):
                        None if signal is None else type(signal).__name__,
                        getattr(target, '__qualname__', ''),
                        id(signal) if signal is not None else 0))
+        if p.record_sched:
+            p.merged.append(('a', now, id(target), id(signal) if signal is not None else 0))
     p.k += 1
     return _ORIG_RUN(self, target, signal)
 
@@ -120,7 +123,16 @@ def _schedule(self, target, signal=None, *, delay=None, at=None):
             due = self.time if (delay is None and at is None) else (
                 self.time + delay if delay is not None else at)
             p.scheds.append((p.k, due, id(target), id(signal) if signal is not None else 0))
+            if p.record:
+                p.merged.append(('s', due, id(target), id(signal) if signal is not None else 0))
     return _ORIG_SCHED(self, target, signal, delay=delay, at=at)
+
+
+def _revoke(self):
+    _STACK = _TLS.stack
+    if _STACK and _STACK[-1].record_sched and _STACK[-1].record:
+        _STACK[-1].merged.append(('r', id(self)))
+    return _ORIG_REVOKE(self)
 
 
 def _run_events(self):
@@ -136,6 +148,8 @@ def _run_events(self):
 
 
 _ORIG_EVENTS = _loop.Loop._run_events
+_ORIG_REVOKE = _loop.Interrupt.revoke
+_loop.Interrupt.revoke = _revoke
 _loop.Loop._run_coroutine = _run_coroutine
 _loop.Loop.schedule = _schedule
 _loop.Loop._run_events = _run_events
